@@ -36,14 +36,14 @@ struct Thr {
     pthread_t real, joiner; void* (*fn)(void*); void* arg;
     int op, ord, opcount; uint64_t phase_points; long prio; uint64_t last_run; int client_ord;
 };
-struct Mtx { const void* key; Thr* owner; int count; };
+struct Mtx { const void* key; Thr* owner; int count; unsigned gen; };
 
 static Thr g_pool[MAXT]; static int g_nthr; static Thr* g_cur; static volatile bool g_active;
 static thread_local Thr* self;
 static Params P; static Stats ST; static fatal_fn g_fatal;
 static bool g_seq, g_faults, g_fair, g_record;
 static uint64_t g_rng, g_frng; static uint64_t g_now;
-static const int MTXN = 1024; static Mtx g_mtx[MTXN];
+static const int MTXN = 1 << 16; static Mtx g_mtx[MTXN]; static unsigned g_mtx_gen = 1;
 static struct sigaction g_handlers[65]; static bool g_has_handler[65]; static bool g_any_handler;
 static const size_t MAXDEC = 1u << 18; static Dec* g_dec; static size_t g_ndec; static bool g_dec_overflow;
 // replay script hash table
@@ -400,7 +400,7 @@ void begin(const Params& p) {
     g_frng = (p.seed ^ 0xA5A5A5A5DEADBEEFULL) * 0xD1342543DE82EF95ULL + 1; if (!g_frng) g_frng = 1;
     for (int i = 0; i < 8; i++) { rnd(); frnd(); }
     g_now = 1600000000ULL * 1000000000ULL; g_seq = true; g_faults = true; g_fair = false;
-    memset(g_mtx, 0, sizeof g_mtx); memset(g_has_handler, 0, sizeof g_has_handler); g_any_handler = false; memset(g_bar, 0, sizeof g_bar);
+    if (++g_mtx_gen == 0) { memset(g_mtx, 0, sizeof g_mtx); g_mtx_gen = 1; } memset(g_has_handler, 0, sizeof g_has_handler); g_any_handler = false; memset(g_bar, 0, sizeof g_bar);
     g_prio_low = 999; g_pct_n = 0;
     if (p.strategy == S_PCT) { g_pct_n = p.pct_depth - 1; if (g_pct_n > 8) g_pct_n = 8; if (g_pct_n < 0) g_pct_n = 0; for (int i = 0; i < g_pct_n; i++) g_pct_change[i] = 1 + rnd() % (uint64_t)(p.expected_steps > 0 ? p.expected_steps : 1); }
     g_pre1_state = 0; g_pre1_home = g_pre1_guest = nullptr; g_stall_on = false; g_stall_done = false; g_live_clients = 0; g_next_client_ord = 0;
@@ -469,8 +469,8 @@ static inline bool sim() { return g_active && self && !self->in_sched; }
 
 static Mtx& mtx_of(const void* m) {
     size_t i = ((uintptr_t)m >> 3) * 0x9E3779B1u % MTXN;
-    for (int k = 0; k < MTXN; k++) { Mtx& x = g_mtx[(i + k) % MTXN]; if (x.key == m) return x; if (!x.key) { x.key = m; x.owner = nullptr; x.count = 0; return x; } }
-    fatal("harness", "mutex table full");
+    for (int k = 0; k < MTXN; k++) { Mtx& x = g_mtx[(i + k) % MTXN]; if (x.gen == g_mtx_gen && x.key == m) return x; if (x.gen != g_mtx_gen) { x.gen = g_mtx_gen; x.key = m; x.owner = nullptr; x.count = 0; return x; } }
+    fatal("budget", "mutex table full");
 }
 static bool is_recursive(pthread_mutex_t* m) { return (m->__data.__kind & 3) == PTHREAD_MUTEX_RECURSIVE_NP; }
 
